@@ -202,7 +202,7 @@ Section Dict.
           exfalso.
           assert (Hvt : vt = TMessage) by (destruct pv'; try (destruct vt; try discriminate Hfv; destruct o; discriminate Hy);
                                             destruct vt; try discriminate Hfv; reflexivity).
-          subst vt.
+          rewrite Hvt in Esv.
           destruct (ser_len2 msgf 2 TMessage (PMsg o) false None [] eq_refl ltac:(change (2 ^ 29) with 536870912; lia))
             as (bs & Es & _ & Hnil & _).
           { unfold preprocess_with. cbn [tmem existsb ptype_eqb ptype_tag Z.eqb orb FIXED_TYPES]. unfold msgf, msg_bytes. exact Eo. }
@@ -213,5 +213,126 @@ Section Dict.
     exists (Obj ec raw2 true [] curE), e0, e1. split; [|split; assumption].
     unfold parse_new. rewrite new_unfold, Hcf. cbn [map]. rewrite Ho1, Ho2. fold curE.
     rewrite (feeds_load fu sc ec [PPlaceholder; PPlaceholder] false [] curE _ _ Hfeed). reflexivity.
+  Qed.
+
+  Definition entries_bytes (kt vt : ptype) : list (pv * pv) -> result (list byte) :=
+    fix entries (kvs : list (pv * pv)) : result (list byte) :=
+      match kvs with
+      | [] => Ok []
+      | (k, v') :: r =>
+          do sk <- serialize_with msgf 1 kt k false None;
+          do sv <- serialize_with msgf 2 vt v' false None;
+          do e <- serialize_with msgf (fnum f) (fty f) (PBytes (sk ++ sv)) true None;
+          do rest <- entries r;
+          Ok (e ++ rest)
+      end.
+
+  Lemma entries_bytes_cons kt vt k v' r :
+    entries_bytes kt vt ((k, v') :: r) =
+    (do sk <- serialize_with msgf 1 kt k false None;
+     do sv <- serialize_with msgf 2 vt v' false None;
+     do e <- serialize_with msgf (fnum f) (fty f) (PBytes (sk ++ sv)) true None;
+     do rest <- entries_bytes kt vt r;
+     Ok (e ++ rest)).
+  Proof. reflexivity. Qed.
+
+  Definition norm_entry (vt : ptype) (kv : pv * pv) : pv * pv :=
+    (fst kv, norm_map_value sc (norm_obj sc) vt (snd kv)).
+
+  Lemma dict_entries kt vt d : forall acc rawQ,
+    fmap f = Some (kt, vt) ->
+    ((nth i rawQ PPlaceholder = PPlaceholder /\ acc = []) \/ nth i rawQ PPlaceholder = PDict acc) ->
+    (i < length rawQ)%nat ->
+    (forall kv kv2, In kv acc -> In kv2 d -> pv_eq sc (fst kv) (fst kv2) = false) ->
+    keys_nodup sc d = true ->
+    Forall (fun kv => scalar_in_range kt (fst kv) = true /\ elem_in_range sc vt pv' (snd kv) = true) d ->
+    Forall (fun kv => elemP (Good sc) (snd kv)) d ->
+    exists bs, entries_bytes kt vt d = Ok bs /\ (d <> [] -> bs <> []) /\
+      (small bs -> (length bs <= fuel')%nat ->
+       feeds fuel' sc cd (Obj c rawQ true unk curP) bs
+             (Obj c (match d with
+                     | [] => rawQ
+                     | _ => set_nth i (PDict (acc ++ map (norm_entry vt) d)) rawQ
+                     end) true unk curP)).
+  Proof.
+    destruct dict_facts as (Hfo & Hfw & Hg & Hty & Hsel & Hdef & _).
+    induction d as [|[k y] d IH]; intros acc rawQ Hm Hslot HlenQ Hacc Hnod Hin HGs.
+    { exists []. split; [reflexivity|]. split; [congruence|]. intros _ _. apply feeds_nil. }
+    inversion Hin as [|? ? [Hk Hy] Hin']; subst. inversion HGs as [|? ? Gy HGs']; subst. cbn [fst snd] in *.
+    cbn [keys_nodup] in Hnod. apply andb_true_iff in Hnod as [Hfreshk Hnod].
+    destruct (entry_parse kt vt k y Hm Hk Hy Gy) as (sk & sv & Esk & Esv & Hparse).
+    destruct (ser_len2 msgf (fnum f) (fty f) (PBytes (sk ++ sv)) true None (sk ++ sv)) as (e & Ee & _ & _ & Hne & Hrd).
+    { rewrite Hty. reflexivity. } { apply (wf_field_num _ _ _ Hwf). } { rewrite Hty. reflexivity. }
+    specialize (Hne (or_intror (or_introl eq_refl))).
+    set (v' := norm_map_value sc (norm_obj sc) vt y).
+    set (rawQ' := set_nth i (PDict (acc ++ [(k, v')])) rawQ).
+    destruct (IH (acc ++ [(k, v')]) rawQ') as (b2 & E2 & Hne2 & F2); auto.
+    { right. unfold rawQ'. apply nth_set_nth_same. exact HlenQ. }
+    { unfold rawQ'. rewrite set_nth_length. exact HlenQ. }
+    { intros kv kv2 Hi1 Hi2. apply in_app_or in Hi1 as [Hi1|[<-|[]]].
+      - apply Hacc; [exact Hi1 | right; exact Hi2].
+      - cbn [fst]. apply negb_true_iff in Hfreshk.
+        destruct (pv_eq sc k (fst kv2)) eqn:E; [|reflexivity].
+        assert (existsb (fun kv => pv_eq sc k (fst kv)) d = true) by (apply existsb_exists; exists kv2; auto). congruence. }
+    rewrite entries_bytes_cons, Esk, Esv. cbn [bind]. rewrite Ee. cbn [bind]. rewrite E2. cbn [bind].
+    exists (e ++ b2). split; [reflexivity|]. split; [intros _; apply app_nonempty_l; exact Hne|].
+    intros Hsm Hl. rewrite app_length in Hl.
+    destruct (Hrd Hne (small_app_l _ _ Hsm)) as (Rd & Hlp).
+    assert (Hsp : small (sk ++ sv)).
+    { pose proof (small_app_l _ _ Hsm) as H1. unfold small, Zlength in *. lia. }
+    destruct (Hparse Hsp fuel' ltac:(lia)) as (eo & e0 & e1 & Pe & G0 & G1).
+    eapply feeds_app.
+    - eapply feeds_one; [exact Rd|].
+      assert (Hn' : field_by_number (get_class sc c) (pnum (mkP (fnum f) 2 0 (sk ++ sv) e)) = Some (i, f))
+        by (apply field_by_number_unique; assumption).
+      assert (Hfit' : wire_type_fits f (pwt (mkP (fnum f) 2 0 (sk ++ sv) e)) = true).
+      { unfold wire_type_fits. cbn [pwt]. rewrite Hty. reflexivity. }
+      assert (Hval : decode_value fuel' sc f (mkP (fnum f) 2 0 (sk ++ sv) e) = Ok (PMsg eo)).
+      { unfold decode_value. cbn [pwt pbytes]. rewrite Hty. cbn [tmem existsb ptype_eqb ptype_tag Z.eqb orb andb PACKED_TYPES].
+        change (2 =? WIRE_LEN_DELIM) with true. change (2 =? WIRE_VARINT) with false.
+        change (2 =? WIRE_FIXED_32) with false. change (2 =? WIRE_FIXED_64) with false. cbv iota. cbn [andb orb].
+        rewrite Pe. reflexivity. }
+      assert (Hmapt : ptype_eqb (fty f) TMap = true) by (rewrite Hty; reflexivity).
+      exact (step_map fuel' sc c rawQ unk curP i f _ eo e0 e1 k v' acc Hf Hn' Hfit' Hval Hmapt Hg Hdef Hslot G0 G1).
+    - rewrite dict_set_fresh.
+      2:{ intros kv Hi. apply (Hacc kv (k, y) Hi). left. reflexivity. }
+      fold rawQ'. specialize (F2 (small_app_r _ _ Hsm) ltac:(lia)).
+      eapply feeds_eq; [exact F2|].
+      destruct d as [|kv2 d]; [reflexivity|].
+      unfold rawQ'. rewrite set_nth_twice. cbn [map]. rewrite <- app_assoc. reflexivity.
+  Qed.
+
+  (* the whole map slot *)
+  Lemma slot_dict d :
+    slot_in_range sc f (PDict d) = true -> keys_nodup sc d = true ->
+    Forall (fun kv => elemP (Good sc) (snd kv)) d ->
+    slot_goal sc fuel' c cur i f rawP unk curP (PDict d).
+  Proof.
+    intros Hr Hnod HG.
+    destruct dict_facts as (Hfo & Hfw & Hg & Hty & Hsel & Hdef & Hfr & kt & vt & fk & fv & Hm & _).
+    assert (Hin : Forall (fun kv => scalar_in_range kt (fst kv) = true /\ elem_in_range sc vt pv' (snd kv) = true) d).
+    { unfold slot_in_range in Hr. rewrite Hh, Hm in Hr.
+      apply (dict_fix_forall (fun k y => scalar_in_range kt k && elem_in_range sc vt pv' y)) in Hr.
+      eapply Forall_impl; [|exact Hr]. intros kv H. apply andb_true_iff in H. exact H. }
+    assert (Hemit : enc_slot sc cur i f (PDict d) = emit_field (enc_obj sc) sc f None (PDict d))
+      by (unfold enc_slot; fold sel; rewrite Hsel; reflexivity).
+    destruct d as [|kv0 d'].
+    { apply slot_skipped; auto.
+      - rewrite Hemit. unfold emit_field. cbn [is_default]. rewrite Hh, Hg, Hfo. reflexivity.
+      - right. right. cbn [is_default]. rewrite Hh. reflexivity.
+      - unfold norm_slot. fold sel. rewrite Hsel. reflexivity.
+      - unfold cur_sel. fold sel. rewrite Hsel. reflexivity. }
+    set (d := kv0 :: d') in *.
+    assert (Hnorm : norm_slot sc (norm_obj sc) f sel (PDict d) = PDict (map (norm_entry vt) d))
+      by (unfold norm_slot; rewrite Hsel, Hm; reflexivity).
+    assert (Hcur : cur_sel sel f i curP = curP) by (unfold cur_sel; rewrite Hsel; reflexivity).
+    assert (Hemit2 : emit_field (enc_obj sc) sc f None (PDict d) = entries_bytes kt vt d).
+    { unfold emit_field. cbn [is_default]. rewrite Hh. cbn [andb]. rewrite Hm. reflexivity. }
+    unfold slot_goal. fold sel. rewrite Hnorm, Hcur, Hemit, Hemit2.
+    destruct (dict_entries kt vt d [] rawP Hm) as (bs & Eb & Hne & Hfeed); auto.
+    { left. split; [rewrite Hfresh; exact Hfr | reflexivity]. }
+    { intros kv kv2 []. }
+    exists bs. split; [exact Eb|]. split; [intros Hb; exfalso; apply Hne; [discriminate | exact Hb]|].
+    exact Hfeed.
   Qed.
 End Dict.
